@@ -100,7 +100,7 @@ func suiteC18(r *Run) {
 		return dm
 	}
 
-	for iter := 0; iter < r.Budget(300, 12000); iter++ {
+	for iter := 0; iter < r.Budget(1500, 12000); iter++ {
 		ad := adapters[iter%4]
 		k := kinds[rng.Intn(len(kinds))]
 		src := k.mk(rng)
@@ -168,6 +168,26 @@ func suiteC18(r *Run) {
 				}
 				r.Violate(sig, "generated and dynamic representations of the same message type can be copied into each other; every message yields a copy", sprintf("Copy(dst %s, src %s) of %s: err=%v panic=%s", dstRepr, srcRepr, k.name, err, trunc(pan, 80)), c, ans)
 				continue
+			}
+			if pre {
+				// separate "the destination's previous content survived" from losses that also occur when
+				// copying into an empty destination (those have their own signatures): compare with a
+				// reference copy of the same source into a fresh destination of the same representation
+				ref := k.zero()
+				if dstRepr == "d" {
+					ref = toDynamic(k, ref)
+				}
+				var rerr error
+				var rpan string
+				func() { defer recoverTo(&rpan); rerr = ad.c.Copy(ref, src) }()
+				if rerr == nil && rpan == "" && bytesOf(ref) != bytesOf(dst) {
+					adn := ad.name
+					if srcRepr == "d" || dstRepr == "d" {
+						adn += "/dynamic"
+					}
+					r.Violate("cloner/"+adn+"/destination-content-survived", "copying into an existing destination replaces its previous content entirely",
+						sprintf("Copy(dst %s pre-populated, src %s) of %s: result encodes to %d bytes, the same copy into an empty destination to %d", dstRepr, srcRepr, k.name, len(bytesOf(dst)), len(bytesOf(ref))), c, "")
+				}
 			}
 			checkCopy(r, ad.name, "copy", c, src, dst, snap, bytesOf)
 		case 3: // destination of a different message type
